@@ -236,8 +236,9 @@ def mirror_extend_low_side(array: jax.Array, axis: int, parity: int, on_plane: b
     if not on_plane:
         return parity * jnp.flip(array, axis=axis)
     if array.shape[axis] == 1:
-        # the single kept sample lies on the plane (its own mirror); the partner-less outer sample repeats it
-        return array
+        # the single kept sample lies on the plane; as for n >= 2 the partner-less outer sample is the
+        # parity-mirrored outermost kept sample
+        return parity * array
     mirrored = parity * jnp.flip(_slice_axis(array, axis, 1), axis=axis)
     return jnp.concatenate([_slice_axis(mirrored, axis, 0, 1), mirrored], axis=axis)
 
